@@ -42,6 +42,9 @@ func freshCert() (tls.Certificate, string) {
 //	sibling-cert  announces a fresh certificate, serves the configured one (the key of a plugin the
 //	              same host launched before)
 //	plaintext     announces a fresh certificate, serves without TLS
+//	chain-with-announced / sibling-chain
+//	              announces a fresh certificate A, serves a chain [B, A] whose leaf B is another
+//	              certificate (fresh / the sibling's) and holds only B's key
 //
 // The real RPCServer / GRPCServer answer whoever gets through.
 func impostor(c *Conf) {
@@ -60,6 +63,12 @@ func impostor(c *Conf) {
 		announce, serve = f1Field, &f2
 	case "sibling-cert":
 		announce, serve = f1Field, &own
+	case "chain-with-announced": // serves its own leaf (whose key it holds) with the announced certificate appended behind it
+		ch := tls.Certificate{Certificate: [][]byte{f2.Certificate[0], f1.Certificate[0]}, PrivateKey: f2.PrivateKey}
+		announce, serve = f1Field, &ch
+	case "sibling-chain": // the sibling's certificate and key as leaf, the announced certificate behind it
+		ch := tls.Certificate{Certificate: [][]byte{own.Certificate[0], f1.Certificate[0]}, PrivateKey: own.PrivateKey}
+		announce, serve = f1Field, &ch
 	case "plaintext":
 		announce, serve = f1Field, nil
 	case "nocert-plaintext": // a plugin that ignores PLUGIN_CLIENT_CERT altogether
